@@ -2359,7 +2359,7 @@ pub fn execute(env: &Env, plan: &Plan, stats: &mut Stats, opts: ExecOpts) -> (Ou
         let mut stripped = plan.clone();
         stripped.ops.retain(|op| op.host() != Some(BYSTANDER));
         let mut scratch = Stats::default();
-        let mut w = World::new(env, &stripped, &mut scratch, ExecOpts { log: false, ..opts });
+        let mut w = World::new(env, &stripped, &mut scratch, ExecOpts { log: false, ..opts.clone() });
         let o2 = w.run(&stripped);
         stats.evaluations += 1;
         stats.bump("oracle.C05_bystander_removed_compared");
@@ -2375,6 +2375,32 @@ pub fn execute(env: &Env, plan: &Plan, stats: &mut Stats, opts: ExecOpts) -> (Ou
                     break;
                 }
             }
+        }
+    }
+    // C05, "a function of the characters that survive, the configuration, the data files and
+    // the learned selections only": the order in which the randomly keyed hash maps of this
+    // process happen to iterate is none of these. The same history is executed again with
+    // other keys for every map; every host must end showing the same.
+    if plan.scenario == Scenario::HistoryIndependence && matches!(o.end, End::Ok) && plan.hash_seed % 3 != 0 {
+        let mut rekeyed = plan.clone();
+        rekeyed.hash_seed = plan.hash_seed ^ 0x9E37_79B9_7F4A_7C15;
+        let mut scratch = Stats::default();
+        let mut w = World::new(env, &rekeyed, &mut scratch, ExecOpts { log: false, ..opts.clone() });
+        let o2 = w.run(&rekeyed);
+        stats.evaluations += 1;
+        stats.bump("oracle.C05_rekeyed_maps_compared");
+        if matches!(o2.end, End::Ok) && o.host_final != o2.host_final {
+            let h = (0..o.host_final.len()).find(|&i| o.host_final.get(i) != o2.host_final.get(i)).unwrap_or(0);
+            let detail = format!(
+                "host {} ends showing something else when the very same history is executed with other keys for the process's hash maps (iteration order is not part of the typed text, the configuration, the data files or the learned selections)",
+                h
+            );
+            log.push(format!("hash-order-independence: {}", detail));
+            o.end = End::Violation(Violation { clause: "hash-order-independence".into(), detail, op_index: plan.ops.len() });
+        } else if let End::Violation(v) = o2.end {
+            // the history itself fails its oracle under the other keys
+            log.push(format!("under other hash keys: {}: {}", v.clause, v.detail));
+            o.end = End::Violation(Violation { clause: "hash-order-independence".into(), detail: format!("with other keys for the process's hash maps the same history violates {}: {}", v.clause, v.detail), op_index: plan.ops.len() });
         }
     }
     (o, log)
